@@ -98,6 +98,10 @@ def cases(tier, rng):
             continue
         line = "c15 dns %s %d" % (st, n)
         cs.append({"line": line, "key": line, "model": False, "tags": {"carrier": "dns", "stall": st}})
+    # ... and while each of the others is connected, a peer on the same host (another source port) sends close requests and garbage data
+    # packets under every low session number
+    line = "c15 dns stranger %d" % n
+    cs.append({"line": line, "key": line, "model": False, "tags": {"carrier": "dns", "stall": "stranger-same-host"}})
     line = "c15 dns halfline %d 0 5" % n
     cs.append({"line": line, "key": line, "model": False, "tags": {"carrier": "dns", "stall": "halflinex5"}})
     for ms in ((1500, 63000) if tier == "thorough" else (1500,)):
